@@ -24,7 +24,7 @@ TRUSTED = ["Lean 4 kernel", "axioms: propext, Quot.sound, Classical.choice (at m
 ASSUMPTIONS = ["every MergeNoblock succeeds (single client goroutine; the concurrent case is C06)", "csv input is one file per server"]
 RULE = ("seeded tables: 0..40 lines with fields x,y,host,msg (missing / non-numeric with tunable probability), split into 1..4 servers x 1..3 "
         "intervals incl. empty parts; queries over every aggregation, group by 0..2 fields, where clauses of both kinds, set clauses; "
-        "formats default/generickv/csv; non-trivial = multi-part / multi-group / minmax / lastlen / where / set tag")
+        "formats default/generickv/csv; non-trivial = multi-part / multi-group / minmax / lastlen / where / set tag; the server-side aggregator: c06.interim (an interim result with 300 groups in flight when the input ends) and the C06 scripts in which every file registers before any ends")
 
 AGGS = ["count", "sum", "min", "max", "avg", "last", "len"]
 
